@@ -356,6 +356,12 @@ def _plan(quick, seed):
         steps = [STEPS[(j + k) % 9] for k in range(3)]
         emit(dict(base, mode="deg only", deg=deg), steps, 1)
         emit(dict(base, mode="dim only", dim={str(k): v for k, v in sorted(dim.items())}), steps, 1)
+    # a weak model with max_hye_size < N and only the degree sequence given: the model's own size sequence leaves degree
+    # over, which the sampler has to use up with extra hyperedges (their sizes must still respect max_hye_size)
+    for j in range(8 if quick else 40):
+        N = R.randint(10, 14)
+        emit(dict(mode="deg only", N=N, K=2, w="diagonal", target=(0.2, 1.0)[j % 2], max_hye_size=(3, 2, 4)[j % 3], exact=False,
+                  allow_rescaling=False, deg=[3] * N), [(5, 3)], 2)
     return plan
 
 
